@@ -41,10 +41,23 @@ type Contract struct {
 	NoPanic  bool // body may be checked only for panic freedom
 	Sites    []Clause // site obligations: "site <matcher>: expr"
 	RangeInv []Clause // invariant of a sync.Map.Range call in this function (over visited(k))
+	Ats      []*AtHook // source-line hooks: assertions before / ghost assignments after a source line
+	Dispatch bool      // interface contract: known implementations are dispatched to, the contract covers other dynamic types
 	File     string
 	Line     int
 	Params   []string // for iface contracts: parameter names
 	NoReturn bool
+}
+
+// AtHook: `at "<source text>" assert [label:] expr`  or  `at "<source text>" set ghost(keyexpr) := expr`
+type AtHook struct {
+	Pattern string
+	Kind    string // assert | set | assume
+	Clause  Clause
+	Ghost   string
+	KeyX    SExpr
+	ValX    SExpr
+	Src     string
 }
 
 type SpecFunc struct {
@@ -59,6 +72,7 @@ type SpecFunc struct {
 }
 
 type GhostDecl struct {
+	Zero bool // newly allocated objects start with the zero value of the ghost
 	Name string
 	Ty   types.Type
 	Sort string
@@ -84,7 +98,7 @@ var propRe = regexp.MustCompile(`^\[((?:C[0-9]+\s*)+)\]\s*(.*)$`)
 
 var keywords = map[string]bool{"func": true, "iface": true, "property": true, "use": true, "requires": true, "ensures": true,
 	"loop": true, "modifies": true, "trusted": true, "inline": true, "pure": true, "axiom": true, "lemma": true,
-	"ghost": true, "smt": true, "let": true, "macro": true, "rangeinv": true, "chan": true, "site": true, "nopanic": true, "end": true, "note": true, "params": true}
+	"ghost": true, "smt": true, "let": true, "macro": true, "rangeinv": true, "at": true, "dispatch": true, "chan": true, "site": true, "nopanic": true, "end": true, "note": true, "params": true}
 
 func (e *Engine) loadContracts(dir string, pkg *types.Package) error {
 	path := filepath.Join(dir, "verif_contracts.go")
@@ -227,6 +241,38 @@ func (e *Engine) loadContracts(dir string, pkg *types.Package) error {
 			} else {
 				cur.Ensures = append(cur.Ensures, c)
 			}
+		case "dispatch":
+			cur.Dispatch = true
+		case "at":
+			// at "<text>" assert label: expr   |   at "<text>" set g(key) := value
+			m := regexp.MustCompile(`^"([^"]*)"\s+(assert|set|assume)\s+(.*)$`).FindStringSubmatch(rest)
+			if m == nil {
+				return fmt.Errorf("%s:%d: bad at directive", path, d.line)
+			}
+			h := &AtHook{Pattern: m[1], Kind: m[2], Src: rest}
+			if m[2] == "set" {
+				mm := regexp.MustCompile(`^([A-Za-z_][A-Za-z0-9_]*)\((.*)\)\s*:=\s*(.*)$`).FindStringSubmatch(expand(m[3]))
+				if mm == nil {
+					return fmt.Errorf("%s:%d: bad ghost assignment", path, d.line)
+				}
+				h.Ghost = mm[1]
+				kx, err := parseSpec(mm[2])
+				if err != nil {
+					return fmt.Errorf("%s:%d: %v", path, d.line, err)
+				}
+				vx, err := parseSpec(mm[3])
+				if err != nil {
+					return fmt.Errorf("%s:%d: %v", path, d.line, err)
+				}
+				h.KeyX, h.ValX = kx, vx
+			} else {
+				c, err := mkClause(m[3], d.line)
+				if err != nil {
+					return err
+				}
+				h.Clause = c
+			}
+			cur.Ats = append(cur.Ats, h)
 		case "rangeinv":
 			c, err := mkClause(rest, d.line)
 			if err != nil {
@@ -334,11 +380,17 @@ func (e *Engine) loadContracts(dir string, pkg *types.Package) error {
 			e.axiomDecls = append(e.axiomDecls, &AxiomDecl{Group: grp, Name: c.Label, Clause: c, Pkg: pkg, Lemma: kw == "lemma"})
 		case "ghost":
 			f := strings.SplitN(rest, " ", 2)
-			t, err := e.resolveType(pkg, strings.TrimSpace(f[1]))
+			tn := strings.TrimSpace(f[1])
+			zero := false
+			if strings.HasSuffix(tn, " zero") {
+				zero = true
+				tn = strings.TrimSpace(strings.TrimSuffix(tn, " zero"))
+			}
+			t, err := e.resolveType(pkg, tn)
 			if err != nil {
 				return fmt.Errorf("%s:%d: %v", path, d.line, err)
 			}
-			e.ghosts[f[0]] = &GhostDecl{Name: f[0], Ty: t}
+			e.ghosts[f[0]] = &GhostDecl{Name: f[0], Ty: t, Zero: zero}
 		case "smt":
 			f := strings.SplitN(rest, " ", 2)
 			e.rawSMT = append(e.rawSMT, [2]string{f[0], f[1]})
